@@ -2,7 +2,10 @@
 """Regenerate MANIFEST.json from the table below (kept valid at all times)."""
 import json, os
 HERE = os.path.dirname(os.path.dirname(os.path.abspath(__file__)))
-TECH = 'solver-based: symbolic evaluation of the real code (jaxpr / Python paths) to SMT, z3 decides each obligation within stated bounds'
+TECH = ('solver-based: symbolic evaluation of the real code (jaxpr / Python paths) to SMT; z3 and cvc5 decide each obligation within stated bounds; '
+        'every counterexample (and every undecided core obligation) is replayed on the real, unstubbed code before a VIOLATION is printed; exit 2 = inconclusive. '
+        'Evidence of detection power: /verif/seeded (42 independently seeded breaking changes, all reported as VIOLATION) and /verif/benign (36 behaviour-preserving '
+        'refactorings, 112 check runs, all exit 0); see DESIGN.md sections 8.5 and 8.6.  Thorough tiers of C11 and C17 take about an hour each.')
 CLAIMED = {
   'C12': dict(
     text='Bounded SMT verification (z3, exact real arithmetic) of the jaxpr of the real sm3.update: one inductive step from an arbitrary '
